@@ -156,6 +156,12 @@ fcache_get_mmap(struct fcache *fc, struct fcache_entry *fce,
 	fce->ce = ce;
 	off = pos & (fc->mmapsz - 1);
 	fce->len = fc->mmapsz - off;
+	if (fc->info[fidx].filesz - blkpos < fc->mmapsz) {
+		/* Pages beyond EOF are mapped but must not be touched. */
+		size_t maplen = (fc->info[fidx].filesz - blkpos + fc->pgsz - 1)
+			& ~(fc->pgsz - 1);
+		fce->len = maplen - off;
+	}
 	fce->data = ce->data + off;
 	fce->cache = fc->cache;
 	return KDUMP_OK;
